@@ -66,7 +66,8 @@ def gen_pipeline(rng, idx, backends):
         rows = [r for r in rows if not (r["unique_id"] in seen or seen.add(r["unique_id"]))]
         tables.append(rows)
     specs = []
-    pool = ["jw_first", "lev_sur", "exact_city_tf", "amount", "dl_sur", "jaro_first", "dist_fn", "name_cmp", "exact_dob", "km", "lev_dob", "city_custom"]
+    pool = ["jw_first", "lev_sur", "exact_city_tf", "amount", "dl_sur", "jaro_first", "dist_fn", "name_cmp", "exact_dob", "km", "lev_dob", "city_custom",
+            "custom_sql", "custom_sql"]
     rng.shuffle(pool)
     col_of = {"jw_first": "first_name", "jaro_first": "first_name", "name_cmp": "first_name", "lev_sur": "surname", "dl_sur": "surname",
               "dist_fn": "surname", "exact_dob": "dob", "lev_dob": "dob", "exact_city_tf": "city", "city_custom": "city"}
@@ -83,8 +84,12 @@ def gen_pipeline(rng, idx, backends):
         chosen.remove("km")
     thr_jw = rng.choice([[0.9, 0.7], [0.92, 0.88], 0.8])
     thr_lev = rng.choice([[1, 2], 2, [1, 3]])
+    if "custom_sql" in chosen:       # its levels read first_name, surname and amount
+        chosen = ["custom_sql"] + [c for c in chosen if col_of.get(c, c) not in ("first_name", "surname", "amount", "custom_sql")]
+        if len(chosen) < 2:
+            chosen.append("exact_city_tf")
     specs = {"comparisons": chosen, "thr_jw": thr_jw, "thr_lev": thr_lev, "tf_weight": rng.choice([None, 0.5]),
-             "blocking": rng.sample(["city", "surname", "dob", "first_name", "expr"], rng.randint(1, 3)),
+             "blocking": rng.sample(["city", "surname", "dob", "first_name", "expr", "custom_rule"], rng.randint(1, 3)),
              "prior_rules": rng.choice([[("first_name", "surname")], [("surname", "dob")], [("first_name", "surname"), ("dob", "city")]]),
              "recall": rng.choice([0.6, 0.8, 1.0]),
              "em": rng.sample(["city", "dob", "surname"], rng.randint(1, 2)),
@@ -140,6 +145,20 @@ def build_settings(spec):
                 cll.PercentageDifferenceLevel("amount", 0.25), cll.ElseLevel()]))
         elif c == "km":
             comps.append(cl.DistanceInKMAtThresholds("lat", "lng", [1, 50]))
+        elif c == "custom_sql":
+            # levels written in DuckDB SQL with dialect-sensitive constructs (NULL-skipping concat, ^ as power, // integer division,
+            # float /), declared through base_dialect_str (creator and dict form); every backend must give DuckDB's meaning
+            comps.append(cl.CustomComparison(output_column_name="custom_sql", comparison_levels=[
+                cll.CustomLevel("first_name_l is null and surname_l is null or first_name_r is null and surname_r is null",
+                                base_dialect_str="duckdb").configure(is_null_level=True),
+                cll.CustomLevel("concat(first_name_l, surname_l) = concat(first_name_r, surname_r)", base_dialect_str="duckdb"),
+                {"sql_condition": "concat(surname_l, first_name_l) = concat(first_name_r, surname_r)", "base_dialect_str": "duckdb"},
+                # (guarded: POWER(NULL, 2) raises inside SQLite's python UDF - reported separately by c06.custom_sql_stage)
+                cll.CustomLevel("case when amount_l is null or amount_r is null then false else coalesce(amount_l, 0) ^ 2 = coalesce(amount_r, 0) ^ 2 end",
+                                base_dialect_str="duckdb"),
+                cll.CustomLevel("cast(amount_l as integer) // 10 = cast(amount_r as integer) // 10 and amount_l / 4 < amount_r / 4 + 1",
+                                base_dialect_str="duckdb"),
+                cll.ElseLevel()]))
         elif c == "city_custom":        # LiteralMatch + And/Not compositions inside a custom comparison
             comps.append(cl.CustomComparison(output_column_name="city", comparison_levels=[
                 cll.NullLevel("city"), cll.And(cll.ExactMatchLevel("city"), cll.LiteralMatchLevel("city", "london", "string", "both")),
@@ -157,8 +176,14 @@ def build_settings(spec):
         elif c == "email":
             comps.append(cl.EmailComparison("email"))
     brs = []
+    from splink.internals.blocking_rule_library import CustomRule
     for b in spec["blocking"]:
-        brs.append("l.surname = r.surname and substr(l.first_name, 1, 1) = substr(r.first_name, 1, 1)" if b == "expr" else block_on(b))
+        if b == "expr":
+            brs.append("l.surname = r.surname and substr(l.first_name, 1, 1) = substr(r.first_name, 1, 1)")
+        elif b == "custom_rule":
+            brs.append(CustomRule("concat(l.first_name, l.city) = concat(r.first_name, r.city)", sql_dialect="duckdb"))
+        else:
+            brs.append(block_on(b))
     return SettingsCreator(link_type=spec["link_type"], comparisons=comps, blocking_rules_to_generate_predictions=brs,
                            retain_intermediate_calculation_columns=True, retain_matching_columns=True,
                            max_iterations=6, em_convergence=0.0001)
